@@ -20,7 +20,7 @@ pvars == <<tid, l, rejected, prev>>
 NoPrev == [t |-> "noprev"]
 
 \* unions: the value machine carries no tags, so only what does not depend on them is specified for union-typed arrays
-UnionSafe(ev) == \/ ev.op \in {"rt_buffers", "rt_pickle", "rt_json", "rt_iter", "same", "concat0", "mask"}
+UnionSafe(ev) == \/ ev.op \in {"rt_buffers", "rt_pickle", "rt_json", "rt_iter", "same", "concat0", "concatperm", "mask"}
                  \/ ev.op = "flatten" /\ ev.args.axis = AxisNone
 Expected(ev) ==
   IF HasUnion(ev.T) /\ ~UnionSafe(ev) THEN Unspec ELSE
@@ -43,9 +43,15 @@ Expected(ev) ==
     [] ev.op = "singletons" -> VSingletons(ev.v, ev.T)
     [] ev.op = "firsts" -> VFirsts(ev.v, ev.T)
     [] ev.op = "concat0" -> Ok(VList(ev.v.xs \o ev.v.xs))
+    \* the second operand's record fields are stored in another order: same records, matched by NAME (C08)
+    [] ev.op = "concatperm" -> Ok(VList(ev.v.xs \o ev.v.xs))
     [] ev.op = "concat1" -> VConcatSelf1(ev.v, ev.T)
     [] ev.op = "zip" -> VZipSelf(ev.v, ev.T)
     [] ev.op = "unflatten" -> VUnflattenLaw(ev.v, ev.T)
+    [] ev.op = "cartesian" -> VCartSelf(ev.v, ev.T)
+    [] ev.op = "argcomb" -> IF a.n < 1 THEN Err ELSE VAxisOp([n |-> "argcomb", k |-> a.n, repl |-> a.repl], ev.v, ev.T, a.axis)
+    [] ev.op = "field" -> VGetItem(ev.v, ev.T, <<Field(a.key)>>)
+    [] ev.op = "withfield" -> VWithFieldSelf(ev.v, ev.T, a.key, a.new)
     [] ev.op = "ufunc" -> VUfunc(ev.v, ev.T, a.mul = 1)
     [] ev.op = "filter" -> VFilter(ev.v, ev.T, a.k)
     \* round trips through the conversion functions: everything reachable survives (C14, C15, C16)
